@@ -274,7 +274,7 @@ class Ctx:
             if not r["ok"]:
                 raise ToolError("TLC model %s did not pass: %s\n%s" % (module, entry["verdict"], out[-3000:]))
         else:
-            if r["violated"] != expect:
+            if r["violated"] not in expect.split("|"):
                 raise ToolError("TLC model %s: expected violation of %s, got %s\n%s" % (module, expect, entry["verdict"], out[-3000:]))
         never = [a for a, n in r["coverage"].items() if n == 0]
         for a in required_actions:
